@@ -21,7 +21,7 @@ instance (pats : List Pat) : Decidable (WFPats pats) := by unfold WFPats; infer_
 structure DictOK (pats : List Pat) (d : Dict) (key : Nat → List Nat) : Prop where
   ne : pats ≠ []
   size_pos : 0 < d.size
-  size_le : d.size ≤ 0xffff
+  size_le : d.size ≤ 0xffffffff
   key0 : key 0 = []
   inj : ∀ i j, i < d.size → j < d.size → key i = key j → i = j
   isP : ∀ i, i < d.size → isPatPrefix pats (key i) = true
